@@ -124,6 +124,13 @@ func (env *SpecEnv) objValue(e *SExpr, o types.Object) TV {
 			return TV{v, x.Type()}
 		}
 		if x.Pkg() != nil && x.Parent() == x.Pkg().Scope() {
+			if !vc.prog.MutableGlobals[x] {
+				if _, hasInit := vc.prog.GlobalInit[x]; !hasInit {
+					if _, known := vc.prog.GlobalInfo[x]; known {
+						return TV{zeroValue(x.Type()), x.Type()}
+					}
+				}
+			}
 			return TV{vc.heapArr(env.st, vc.globalName(x), sortOf(x.Type())), x.Type()}
 		}
 		v, ok := env.st.env[o]
@@ -254,7 +261,7 @@ func (env *SpecEnv) evalQuant(e *SExpr) TV {
 		v := BoundVar(fmt.Sprintf("%s!q%d", b.Name, qctr()), sortOf(ty))
 		vars = append(vars, v)
 		n = n.with(b.Name, TV{v, ty})
-		if lo, hi, ok := intRange(ty); ok {
+		if lo, hi, ok := intRange(ty); ok && !is64(ty) {
 			ranges = append(ranges, And(Le(BigLit(lo), v), Le(v, BigLit(hi))))
 		} else if _, ok := ty.Underlying().(*types.Pointer); ok {
 			ranges = append(ranges, Ge(v, IntLit(0)))
@@ -262,7 +269,7 @@ func (env *SpecEnv) evalQuant(e *SExpr) TV {
 	}
 	body := n.evalBool(e.X)
 	if e.Name == "forall" {
-		return TV{Forall(vars, Implies(And(ranges...), body)), types.Typ[types.Bool]}
+		return TV{ForallNorm(vars, ranges, body), types.Typ[types.Bool]}
 	}
 	return TV{Exists(vars, And(And(ranges...), body)), types.Typ[types.Bool]}
 }
@@ -738,4 +745,11 @@ func sprintfTerm(format string, args []*Term) *Term {
 		name += "." + smtName(strings.NewReplacer("(", "", ")", "", " ", "_").Replace(a.Sort.S))
 	}
 	return App(name, SStr, args...)
+}
+
+// is64: 64-bit integer binders are quantified over all mathematical integers (their range guard never matters
+// for the formulas written here and only clutters the patterns).
+func is64(t types.Type) bool {
+	b, _, ok := intBits(t)
+	return ok && b == 64
 }
